@@ -234,7 +234,17 @@ func shortTypeName(t types.Type) string {
 func isReflectValue(t types.Type) bool {
 	if n, ok := t.(*types.Named); ok {
 		o := n.Obj()
-		return o.Pkg() != nil && o.Pkg().Path() == "reflect" && o.Name() == "Value"
+		if o.Pkg() != nil && o.Pkg().Path() == "reflect" && o.Name() == "Value" {
+			return true
+		}
+		// `type T reflect.Value` (jlib.StringCallable, StringNumberBool, ...): same representation, converted freely
+		if st, ok := n.Underlying().(*types.Struct); ok && st.NumFields() == 3 {
+			for i := 0; i < st.NumFields(); i++ {
+				if fn, ok := st.Field(i).Type().(*types.Named); ok && fn.Obj().Pkg() != nil && fn.Obj().Pkg().Path() == "reflect" && fn.Obj().Name() == "flag" {
+					return true
+				}
+			}
+		}
 	}
 	return false
 }
